@@ -78,6 +78,42 @@ func H_c02(p []int) {
 	vCover(n > 0, "symbolic-secret")
 }
 
+// H_c02m: two operands in one call, the first under Safe() or Unsafe():
+// what the first leaves behind must not change how the second is classified.
+// p = [kind1, wrap1 (0 none, 1 Safe, 2 Unsafe), kind2, n]
+func H_c02m(p []int) {
+	k1, w1, k2, n := p[0], p[1], p[2], p[3]
+	bs := vBytes(n)
+	for k := range bs {
+		vAssume(bs[k] != '\n')
+	}
+	vSite(fmt.Sprintf("two operands kinds=%d,%d wrap=%d", k1, k2, w1))
+	// the first operand is public when it is under Safe(): concrete leaf
+	var a interface{}
+	switch w1 {
+	case 1:
+		a = redact.Safe(mkValue(k1, "pub", 7))
+	case 2:
+		a = redact.Unsafe(mkValue(k1, string(bs), 7))
+	default:
+		a = mkValue(k1, string(bs), 7)
+	}
+	b := mkValue(k2, string(bs), 9)
+	r := catchRedact(func() redact.RedactableString { return redact.Sprintf("%v; %v|%s", a, b, string(bs)) })
+	if r.panicked {
+		return
+	}
+	out := []byte(r.out)
+	vObserve("out", out)
+	wf, _ := wfls(out)
+	vAssert(wf, "C02/wf-needed-for-redaction")
+	if !wf {
+		return
+	}
+	vObserve("const:redacted", redactRef(out))
+}
+
 func init() {
 	Harnesses["H_c02"] = H_c02
+	Harnesses["H_c02m"] = H_c02m
 }
